@@ -211,7 +211,7 @@ def run(tier="quick", seed=0):
             nets.append(Net(s, vs))
             exps.append(expected)
             descs.append({"source": list(src), "sinks": [list(c) for c in sinks], "sink_flavours": [(i + variant) % 4 for i in range(len(sinks))], "dup": dup})
-        size = (len(dl) + 3 * len(dc), w * h, sum(len(n[1]) for n in nets_spec), len(nets_spec))
+        size = (len(dl) + 3 * len(dc), sum(len(n[1]) for n in nets_spec), w * h, len(nets_spec))
         random.seed(sd)
         try:
             result = route(vr, nets, machine, constraints, placements, allocations, Cores, radius)
@@ -240,9 +240,20 @@ def run(tier="quick", seed=0):
 
     try:
         # ======================= (i) systematic small scope =====================================
+        # Fault families around the fault-free tree T of (machine, net, radius, seed):
+        #   L1  every single dead directed link with an end on a chip of T ("near")
+        #   C1  every single dead chip hosting no vertex
+        #   CL  every dead chip on T plus one dead near link
+        #   L2  every pair of dead near links, at least one of them on T
+        #   L3  every triple of dead near links, at least two of them on T
+        # thorough: all radii x all seeds for every net; L3 for nets of <= 2 sinks.
+        # quick: 1-sink nets get everything (all radii, 2 seeds, L1 C1 CL L2 L3); 2-sink nets get one
+        # (radius, seed) combination per net (rotating) with L1 C1 L2; 3-sink nets one combination with
+        # C1 and L1 restricted to the links of T.
         sizes = [(w, h) for w in (1, 2, 3) for h in (1, 2, 3)]
         seeds = (0, 1, 2, 3, 4) if thorough else (0, 1)
         radii = (0, 1, 20)
+        combos = [(r, sd) for r in radii for sd in seeds]
         case_no = 0
         for (w, h) in sizes:
             chips = [(x, y) for x in range(w) for y in range(h)]
@@ -259,44 +270,43 @@ def run(tier="quick", seed=0):
                             dup = (case_no // 4) % 3 if ns else 0
                             spec = [(src, list(sinks), dup)]
                             used = set(sinks) | {src}
-                            for radius in radii:
-                                for sd in seeds:
-                                    # quick thins (radius, seed) for the 3-sink nets
-                                    if not thorough and ns == 3 and (radius + sd + case_no) % 3:
-                                        continue
-                                    base = evaluate(w, h, torus, base_dead, frozenset(), frozenset(), spec, radius, sd, variant)
-                                    if not base:
-                                        continue
-                                    tchips, tlinks = base[0]
-                                    if tlinks:
+                            if thorough or ns <= 1:
+                                todo = combos
+                            else:
+                                todo = [combos[case_no % len(combos)]]
+                            fam_cl = thorough or ns <= 1
+                            fam_l2 = thorough or ns <= 2
+                            fam_l3 = ns <= (2 if thorough else 1)
+                            l1_tree_only = (not thorough) and ns == 3
+                            for radius, sd in todo:
+                                base = evaluate(w, h, torus, base_dead, frozenset(), frozenset(), spec, radius, sd, variant)
+                                if not base:
+                                    continue
+                                tchips, tlinks = base[0]
+                                if not tlinks:
+                                    continue       # all sinks on the source chip: no hop, faults are irrelevant
+                                st["nontrivial"] += 1
+                                near = [l for l in all_links if (l[0], l[1]) in tchips or _target(l[0], l[1], l[2], w, h) in tchips]
+                                tl = sorted(tlinks)
+                                for l in (tl if l1_tree_only else near):                                    # L1
+                                    evaluate(w, h, torus, base_dead, frozenset([l]), frozenset(), spec, radius, sd, variant)
+                                    if l in tlinks:
                                         st["nontrivial"] += 1
-                                    if not tlinks:
-                                        continue       # all sinks on the source chip: faults are irrelevant
-                                    near = [l for l in all_links if (l[0], l[1]) in tchips or _target(l[0], l[1], l[2], w, h) in tchips]
-                                    tl = sorted(tlinks)
-                                    # every single dead directed link near the tree
-                                    for l in near:
-                                        evaluate(w, h, torus, base_dead, frozenset([l]), frozenset(), spec, radius, sd, variant)
-                                        if l in tlinks:
-                                            st["nontrivial"] += 1
-                                            st["repairs"] += 1
-                                    # every single dead chip that hosts neither the source nor a sink
-                                    for c in chips:
-                                        if c in used:
-                                            continue
-                                        evaluate(w, h, torus, base_dead, frozenset(), frozenset([c]), spec, radius, sd, variant)
-                                        if c in tchips:
-                                            st["nontrivial"] += 1
-                                            st["repairs"] += 1
-                                            # ... and that dead chip with one more dead link next to the tree
-                                            if thorough or ns <= 1:
-                                                for l in near:
-                                                    if (l[0], l[1]) != c:
-                                                        evaluate(w, h, torus, base_dead, frozenset([l]), frozenset([c]), spec, radius, sd, variant)
-                                                        st["nontrivial"] += 1
-                                    # every pair of dead directed links near the tree, at least one of them ON the tree
-                                    if not thorough and (ns == 3 or (ns == 2 and (radius + sd) % 2)):
+                                        st["repairs"] += 1
+                                for c in chips:                                                             # C1
+                                    if c in used:
                                         continue
+                                    evaluate(w, h, torus, base_dead, frozenset(), frozenset([c]), spec, radius, sd, variant)
+                                    if c in tchips:
+                                        st["nontrivial"] += 1
+                                        st["repairs"] += 1
+                                        if fam_cl:                                                          # CL
+                                            for l in near:
+                                                if (l[0], l[1]) != c:
+                                                    evaluate(w, h, torus, base_dead, frozenset([l]), frozenset([c]), spec, radius, sd, variant)
+                                                    st["nontrivial"] += 1
+                                                    st["repairs"] += 1
+                                if fam_l2:                                                                  # L2
                                     for a in tl:
                                         for b in near:
                                             if b == a or (b in tlinks and b < a):
@@ -304,23 +314,20 @@ def run(tier="quick", seed=0):
                                             evaluate(w, h, torus, base_dead, frozenset([a, b]), frozenset(), spec, radius, sd, variant)
                                             st["nontrivial"] += 1
                                             st["repairs"] += 1
-                                    if thorough and ns <= 2:
-                                        # triples: two on the tree (or one on it and its reverse) plus any near link
-                                        for a, b in itertools.combinations(tl, 2):
-                                            for c3 in near:
-                                                if c3 != a and c3 != b and not (c3 in tlinks and c3 < b):
-                                                    evaluate(w, h, torus, base_dead, frozenset([a, b, c3]), frozenset(), spec, radius, sd, variant)
-                                                    st["nontrivial"] += 1
+                                if fam_l3:                                                                  # L3
+                                    for a, b in itertools.combinations(tl, 2):
+                                        for c3 in near:
+                                            if c3 != a and c3 != b and not (c3 in tlinks and c3 < b):
+                                                evaluate(w, h, torus, base_dead, frozenset([a, b, c3]), frozenset(), spec, radius, sd, variant)
+                                                st["nontrivial"] += 1
+                                                st["repairs"] += 1
         systematic = st["ev"]
         st["sys"] = False
 
         # ======================= (ii) seeded sample, denser faults, machines up to 6 x 6 ==========
-        n_random = 200000 if thorough else 14000
-        budget = 420.0 if thorough else 30.0
+        n_random = 200000 if thorough else 30000
         done_random = 0
         for i in range(n_random):
-            if (i & 255) == 0 and time.time() - t0 > budget:
-                break
             w, h = rng.randint(1, 6), rng.randint(1, 6)
             if rng.random() < .35:
                 w, h = rng.randint(1, 3), rng.randint(1, 3)
